@@ -312,6 +312,41 @@ def rec_op_class():
     return _REC["cls"]
 
 
+def alloc_op_class(which):
+    """Harness-local ops whose only effect is an ALLOC: 'own' on their own first result (unobservable once the result is unused), 'ext' on their first operand
+    (a value defined OUTSIDE the op: observable by whoever else holds that value)."""
+    if which not in _REC:
+        from xdsl.irdl import IRDLOperation, irdl_op_definition, traits_def, var_operand_def, var_result_def
+        from xdsl.traits import EffectInstance, MemoryEffect, MemoryEffectKind
+
+        class AllocOwn(MemoryEffect):
+            @classmethod
+            def get_effects(cls, op):
+                return {EffectInstance(MemoryEffectKind.ALLOC, op.results[0])}
+
+        class AllocExt(MemoryEffect):
+            @classmethod
+            def get_effects(cls, op):
+                return {EffectInstance(MemoryEffectKind.ALLOC, op.operands[0])}
+
+        @irdl_op_definition
+        class C13AllocOwn(IRDLOperation):
+            name = "test.c13_alloc_own"
+            ins = var_operand_def()
+            outs = var_result_def()
+            traits = traits_def(AllocOwn())
+
+        @irdl_op_definition
+        class C13AllocExt(IRDLOperation):
+            name = "test.c13_alloc_ext"
+            ins = var_operand_def()
+            outs = var_result_def()
+            traits = traits_def(AllocExt())
+
+        _REC["own"], _REC["ext"] = C13AllocOwn, C13AllocExt
+    return _REC[which]
+
+
 @rechecked
 def check_recursive_effects(shape):
     """
@@ -323,6 +358,10 @@ def check_recursive_effects(shape):
     from xdsl.transforms.dead_code_elimination import dce, is_trivially_dead, region_dce
 
     def mk_shape(sh):
+        if sh == "alloc_own":
+            return alloc_op_class("own").create(result_types=[i32])
+        if sh == "alloc_ext":
+            return alloc_op_class("ext").create(operands=[outer[0].results[0]], result_types=[i32])
         if isinstance(sh, str):
             return mk(sh, [], 1)
         kids = [mk_shape(c) for c in sh[1]]
@@ -330,7 +369,8 @@ def check_recursive_effects(shape):
 
     def harmless(sh):
         if isinstance(sh, str):
-            return sh in ("pure", "read")
+            # an allocation of a value defined by the op itself (or inside the removed op) cannot be observed; one of a value defined outside can
+            return sh in ("pure", "read", "alloc_own")
         return all(harmless(c) for c in sh[1])
 
     def _t(sh):
@@ -339,9 +379,10 @@ def check_recursive_effects(shape):
     shape = _t(shape) if not isinstance(shape, str) else shape
     exp_removed = harmless(shape)
     for entry in ("is_trivially_dead", "region_dce", "dce"):
+        outer = [mk("unknown", [], 1)]
         top = mk_shape(shape)
-        keep = mk("write", [], 0)
-        module = ModuleOp([top, keep])
+        keep = mk("write", [outer[0].results[0]], 0)
+        module = ModuleOp([outer[0], top, keep])
         before = str(module)
         if entry == "is_trivially_dead":
             got_removed = is_trivially_dead(top)
@@ -432,6 +473,9 @@ def explore_recursive(tier, seed):
                 for c in leaves:
                     shapes.append(("rec", [("rec", [("rec", [a, b]), c])]))
     shapes.append(("rec", []))
+    for a in ("alloc_own", "alloc_ext"):
+        shapes += [a, ("rec", [a]), ("rec", [("rec", [a])]), ("rec", ["pure", a]), ("rec", [a, "read"]), ("rec", [("rec", [a, "pure"]), "read"]), ("rec", [a, "write"])]
+    shapes.append(("rec", ["alloc_own", "alloc_ext"]))
     fails = []
     for sh in shapes:
         f = check_recursive_effects(sh)
